@@ -72,12 +72,19 @@ var solverCmds = [][]string{
 	{"z3", "-in", "-smt2"},
 	{"z3-new", "-in", "-smt2"},
 	{"cvc5", "--incremental", "--lang=smt2", "--produce-models"},
+	// integer encoding that keeps the mod-2^k semantics: decides multiply/divide-by-constant kernels
+	// (decimal digits, BCD, seconds-of-day) in a fraction of the time bit-blasting needs
+	{"cvc5", "--incremental", "--lang=smt2", "--produce-models", "--solve-bv-as-int=sum"},
 }
 
 func NewSolver(ctx *TermCtx, timeoutMs int) *Solver {
 	s := &Solver{ctx: ctx, TimeoutMs: timeoutMs, DiffEvery: 0}
 	for _, argv := range solverCmds {
-		s.procs = append(s.procs, &proc{name: argv[0], argv: argv})
+		name := argv[0]
+		if len(argv) > 4 {
+			name = "cvc5-int"
+		}
+		s.procs = append(s.procs, &proc{name: name, argv: argv})
 	}
 	return s
 }
@@ -105,10 +112,14 @@ func (p *proc) abort() {
 	defer p.mu.Unlock()
 	if p.cmd != nil && p.cmd.Process != nil {
 		p.cmd.Process.Kill()
+		p.dead = true
 	}
 }
 
 func (p *proc) start(timeoutMs int) error {
+	if p.cmd != nil && p.dead {
+		p.kill() // aborted by a race: start afresh
+	}
 	if p.cmd != nil {
 		return nil
 	}
@@ -116,7 +127,7 @@ func (p *proc) start(timeoutMs int) error {
 	switch p.name {
 	case "z3", "z3-new":
 		argv = append(argv, fmt.Sprintf("-t:%d", timeoutMs))
-	case "cvc5":
+	case "cvc5", "cvc5-int":
 		argv = append(argv, fmt.Sprintf("--tlimit-per=%d", timeoutMs))
 	}
 	cmd := exec.Command(argv[0], argv[1:]...)
@@ -510,6 +521,7 @@ func (s *Solver) Check(what string, asserts []*Term, want ...*Term) (Verdict, Mo
 		}()
 	}
 	pending := 0
+	var raceErrs []string
 	started := map[*proc]bool{}
 	if len(s.procs) > 0 {
 		run(s.procs[0])
@@ -518,7 +530,7 @@ func (s *Solver) Check(what string, asserts []*Term, want ...*Term) (Verdict, Mo
 	}
 	raceAfter := time.Duration(s.RaceAfterMs) * time.Millisecond
 	if s.RaceAfterMs == 0 {
-		raceAfter = 4 * time.Second
+		raceAfter = 3 * time.Second
 	}
 	timer := time.NewTimer(raceAfter)
 	launchRest := func() {
@@ -535,7 +547,7 @@ func (s *Solver) Check(what string, asserts []*Term, want ...*Term) (Verdict, Mo
 		case r := <-ch:
 			pending--
 			if r.err != nil {
-				s.Errors = append(s.Errors, r.err.Error())
+				raceErrs = append(raceErrs, r.err.Error())
 				launchRest()
 				continue
 			}
@@ -550,6 +562,10 @@ func (s *Solver) Check(what string, asserts []*Term, want ...*Term) (Verdict, Mo
 		}
 	}
 	timer.Stop()
+	if verdict == Unknown {
+		// nobody gave a definite answer: back-end failures make the query inconclusive
+		s.Errors = append(s.Errors, raceErrs...)
+	}
 	if pending > 0 {
 		// losers still running: kill them and drain
 		for _, p := range s.procs {
